@@ -157,6 +157,12 @@ func init() {
 					p = orb.Point{float64(r.Range(-20, 20)), float64(r.Range(-20, 20))}
 				}
 			}
+			if geoC && r.P(1, 12) {
+				p[0] = []float64{-180, 180}[r.Intn(2)] // on the antimeridian, either spelling
+				if i > 0 && r.Bool() {
+					p[1] = ls[i-1][1]
+				}
+			}
 			if i > 0 && r.P(1, 5) {
 				p = ls[i-1] // zero-length segment
 			}
